@@ -14,7 +14,7 @@ import (
 	"github.com/mithrandie/ternary"
 )
 
-var verifC04Queries [7]parser.SelectQuery
+var verifC04Queries [9]parser.SelectQuery
 
 func VerifC04BucketsSetup() {
 	verifC04Queries[0] = verifParseSelect("select k, count(*), min(id), max(id), listagg(id, ',') from t group by k")
@@ -25,12 +25,23 @@ func VerifC04BucketsSetup() {
 	verifC04Queries[5] = verifParseSelect("select id, count(*) over (partition by k), listagg(id, ',') over (partition by k) from t")
 	// the rows are reordered by one analytic function's ORDER BY before another one partitions by the same column
 	verifC04Queries[6] = verifParseSelect("select id, count(*) over (partition by k), row_number() over (order by k desc, id desc) from t")
+	// two analytic functions partitioning by different, non-leading columns
+	verifC04Queries[7] = verifParseSelect("select id, count(*) over (partition by k), count(*) over (partition by g), count(*) over (partition by id), count(*) over (partition by g, k) from t")
+	// DISTINCT inside aggregates, in default and in strict mode
+	verifC04Queries[8] = verifParseSelect("select count(distinct k), count(k) from t")
 }
 
 var verifC04Menu = []string{"a", " A ", "b", "1", "x:y"}
+var verifC04NumMenu = []string{"1", "1.0"}
 
-func verifC04KeyCell(tag string) value.Primary {
-	c := verifChoice(tag, 2+len(verifC04Menu))
+// verifC04KeyCell: a key from one of two families - texts with case / blank / delimiter variants
+// next to integers, or the spellings of small numbers as integer, float and text.
+func verifC04KeyCell(tag string, numeric bool) value.Primary {
+	menu := verifC04Menu
+	if numeric {
+		menu = verifC04NumMenu
+	}
+	c := verifChoice(tag, 2+len(menu))
 	switch c {
 	case 0:
 		return value.NewNull()
@@ -38,9 +49,12 @@ func verifC04KeyCell(tag string) value.Primary {
 		i := verifInt64(tag + ".int")
 		verifAssume(i >= 0)
 		verifAssume(i <= 1)
+		if numeric && verifBool(tag+".float") {
+			return value.NewFloat(float64(verifConcretize(int(i)))) // the same number as a float
+		}
 		return value.NewInteger(int64(verifConcretize(int(i))))
 	}
-	return value.NewString(verifC04Menu[c-2])
+	return value.NewString(menu[c-2])
 }
 
 func verifIntCell(p value.Primary) int64 {
@@ -66,15 +80,19 @@ func VerifC04Buckets() {
 	scope := NewReferenceScope(tx)
 	flags := tx.Flags
 	n := verifBound(3, 4)
+	numeric := verifChoice("family", 2) == 1
 	keys := make([]value.Primary, n)
 	rows := make([][]value.Primary, n)
 	for i := 0; i < n; i++ {
-		keys[i] = verifC04KeyCell("k")
-		rows[i] = []value.Primary{value.NewInteger(int64(i)), keys[i]}
+		keys[i] = verifC04KeyCell("k", numeric)
+		rows[i] = []value.Primary{value.NewInteger(int64(i)), keys[i], nil}
 	}
-	verifTempTable(scope, "t", []string{"id", "k"}, rows)
+	for i := 0; i < n; i++ {
+		rows[i][2] = keys[n-1-i] // g: the same keys in reverse row order
+	}
+	verifTempTable(scope, "t", []string{"id", "k", "g"}, rows)
 	// u holds the key of row 0 (twice) and one extra key
-	extra := verifC04KeyCell("u")
+	extra := verifC04KeyCell("u", numeric)
 	verifTempTable(scope, "u", []string{"k"}, [][]value.Primary{{keys[0]}, {extra}, {keys[0]}})
 	same := func(a, b value.Primary) bool {
 		if value.IsNull(a) || value.IsNull(b) {
@@ -98,10 +116,68 @@ func VerifC04Buckets() {
 			reps = append(reps, i)
 		}
 	}
-	qi := verifChoice("query", 7)
+	qi := verifChoice("query", 9)
+	strict := qi == 8 && verifChoice("strict", 2) == 1
+	flags.StrictEqual = strict
 	view, err := Select(verifCtx(), scope, verifC04Queries[qi])
 	verifAssert("select succeeds", err == nil)
 	switch qi {
+	case 7:
+		verifAssert("two partitions: all rows kept", view.RecordLen() == n)
+		for r := 0; r < view.RecordLen(); r++ {
+			id := int(verifIntCell(view.RecordSet[r][0][0]))
+			ck, cg := 0, 0
+			for i := 0; i < n; i++ {
+				if class[i] == class[id] {
+					ck++
+				}
+				if same(keys[n-1-i], keys[n-1-id]) {
+					cg++
+				}
+			}
+			verifAssert("count(*) over the partition by k", verifIntCell(view.RecordSet[r][1][0]) == int64(ck))
+			verifAssert("count(*) over the partition by g", verifIntCell(view.RecordSet[r][2][0]) == int64(cg))
+			verifAssert("count(*) over the partition by the leading column", verifIntCell(view.RecordSet[r][3][0]) == 1)
+		}
+	case 8:
+		identical := func(a, b value.Primary) bool {
+			switch x := a.(type) {
+			case *value.Integer:
+				y, ok := b.(*value.Integer)
+				return ok && x.Raw() == y.Raw()
+			case *value.Float:
+				y, ok := b.(*value.Float)
+				return ok && x.Raw() == y.Raw()
+			case *value.String:
+				y, ok := b.(*value.String)
+				return ok && x.Raw() == y.Raw()
+			}
+			return false
+		}
+		distinct, nonNull := 0, 0
+		for i := 0; i < n; i++ {
+			if value.IsNull(keys[i]) {
+				continue
+			}
+			nonNull++
+			first := true
+			for j := 0; j < i; j++ {
+				if value.IsNull(keys[j]) {
+					continue
+				}
+				if (strict && identical(keys[i], keys[j])) || (!strict && same(keys[i], keys[j])) {
+					first = false
+				}
+			}
+			if first {
+				distinct++
+			}
+		}
+		verifAssert("one result row", view.RecordLen() == 1)
+		if view.RecordLen() == 1 {
+			verifAssert("count(distinct k) counts the buckets of the non-NULL keys", verifIntCell(view.RecordSet[0][0][0]) == int64(distinct))
+			verifAssert("count(k) counts the non-NULL keys", verifIntCell(view.RecordSet[0][1][0]) == int64(nonNull))
+		}
 	case 0:
 		verifAssert("one group per class", view.RecordLen() == len(reps))
 		for g := 0; g < view.RecordLen(); g++ {
